@@ -102,6 +102,12 @@ func setup(extra []string) {
 	})
 }
 
+// Importer returns the shared export-data importer (for go/types checks of generated Go).
+func Importer() *packages.Importer { setup(nil); return imp }
+
+// FileSet returns the file set of the shared importer.
+func FileSet() *token.FileSet { setup(nil); return fset }
+
 // Warm may be called first with additional import paths the generated programs use.
 func Warm(extra ...string) { setup(extra) }
 
